@@ -80,6 +80,10 @@ def run(ctx):
         r = oracle(c)
         if r:
             fails.append((r[1], c))
+    for c in cases:
+        st = [n_ for n_, o in enumerate(c["ops"]) if o.get("stuck")]
+        if st:
+            fails.append(("the expiry routine of an instance whose instant created + 5/4 lifetime had passed did not finish (op %d): the instance stays in the table" % st[0], c))
     tfail = []
     for t in timing:
         lo = t["life_ms"] * 5 // 4
